@@ -278,11 +278,31 @@ void *wtry_probe(void *a) { long bad = 0; (void)a; if (p_rwlock_writer_trylock(s
 void *share_b(void *a) { sem_t **s = a; p_rwlock_reader_lock(srw); sem_post(s[1]); p_rwlock_reader_unlock(srw); return NULL; }
 void *try_probe(void *a) { long bad = 0; (void)a; if (p_rwlock_reader_trylock(srw)) { bad = 1; p_rwlock_reader_unlock(srw); } if (p_rwlock_writer_trylock(srw)) { bad = 1; p_rwlock_writer_unlock(srw); } return (void *)bad; }
 
+/* --mode holds: read holds taken with reader_trylock until the implementation refuses (or --max is reached).  However many were granted,
+ * they exclude writers until the last one is released; a TRUE that registered no reader would let a writer in too early. */
+static long long st_holds_granted, st_holds_refused_at;
+static void run_holds(long long max) {
+	long long got = 0, i; PRWLock *l = p_rwlock_new();
+	scen = "read-holds-up-to-the-limit";
+	if (!l) VH_DIE("rwlock new");
+	while (got < max) { if (!p_rwlock_reader_trylock(l)) break; got++; if ((got & 0xFFFFF) == 0) __atomic_add_fetch(&progress, 1, __ATOMIC_RELAXED); }
+	st_holds_granted = got; st_holds_refused_at = got < max ? got : -1;
+	if (p_rwlock_writer_trylock(l)) { viol("writer-with-readers", "writer trylock returned TRUE while %lld read holds were outstanding", got); p_rwlock_writer_unlock(l); }
+	for (i = 0; i + 1 < got; i++) { if (!p_rwlock_reader_unlock(l)) { viol("unlock-failed", "reader unlock %lld of %lld returned FALSE", i, got); break; } if ((i & 0xFFFFF) == 0) __atomic_add_fetch(&progress, 1, __ATOMIC_RELAXED); }
+	if (!vh_nviol && got > 0) {
+		if (p_rwlock_writer_trylock(l)) { viol("writer-with-readers", "after %lld read holds were granted and all but one released, a writer trylock returned TRUE (a granted hold was not registered)", got); p_rwlock_writer_unlock(l); }
+		if (!p_rwlock_reader_unlock(l)) viol("unlock-failed", "the last reader unlock returned FALSE");
+	}
+	if (!vh_nviol) { if (!p_rwlock_writer_trylock(l)) viol("not-free-after-readers-left", "after %lld read holds were all released the lock is not grantable to a writer", got); else p_rwlock_writer_unlock(l); }
+	if (!vh_nviol) p_rwlock_free(l);
+}
+
 int main(int argc, char **argv) {
 	vh_rng r; double t0 = vh_now(); const char *mode = vh_arg(argc, argv, "--mode", "sched"); long long n = vh_argi(argc, argv, "--n", 10000); pthread_t wd;
 	vh_seed(&r, (uint64_t)vh_argi(argc, argv, "--seed", 1) * 0xA24BAED4963EE407ULL);
 	p_libsys_init();
 	if (!strcmp(mode, "sched")) run_sched(&r, n);
+	else if (!strcmp(mode, "holds")) { wd_limit_s = 120; pthread_create(&wd, NULL, wd_fn, NULL); run_holds(n); }
 	else {
 		const char *tl = vh_arg(argc, argv, "--threads", "4,16"); char tmp[64], *tok, *sv;
 		perturb = (int)vh_argi(argc, argv, "--perturb", 10); wd_limit_s = (int)vh_argi(argc, argv, "--stall", 45);
@@ -291,10 +311,10 @@ int main(int argc, char **argv) {
 		for (tok = strtok_r(tmp, ",", &sv); tok; tok = strtok_r(NULL, ",", &sv)) { int T = atoi(tok); if (T >= 1 && T <= MAXT) run_stress(T, n / T + 50); }
 	}
 	printf("{\"ev\":\"stats\",\"mode\":\"%s\",\"model\":\"%s\",\"histories\":%lld,\"distinct_traces\":%zu,\"distinct_states\":%zu,\"sched_points\":%lld,\"cond_waits\":%lld,\"spurious_injected\":%lld,\"signals\":%lld,\"broadcasts\":%lld,"
-	       "\"grants_r\":%lld,\"grants_w\":%lld,\"try_true\":%lld,\"try_false\":%lld,\"max_readers\":%lld,\"stress_runs\":%lld,\"stress_grants\":%lld,\"stress_try_true\":%lld,\"stress_try_false\":%lld,\"stress_max_readers\":%d,\"max_simultaneous_read_holds\":%lld,\"read_hold_series_refused_at_a_limit\":%lld,"
+	       "\"grants_r\":%lld,\"grants_w\":%lld,\"try_true\":%lld,\"try_false\":%lld,\"max_readers\":%lld,\"stress_runs\":%lld,\"stress_grants\":%lld,\"stress_try_true\":%lld,\"stress_try_false\":%lld,\"stress_max_readers\":%d,\"max_simultaneous_read_holds\":%lld,\"read_hold_series_refused_at_a_limit\":%lld,\"trylock_read_holds_granted\":%lld,\"trylock_read_holds_refused_at\":%lld,"
 	       "\"stress_yields\":%lld,\"stress_spurious\":%lld,\"viol\":%d,\"wall\":%.2f}\n",
 	       mode, VH_MODEL, st_histories, tcnt, scnt, st_sched_points, st_cond_waits, st_spurious, st_signals, st_broadcasts, st_grants_r, st_grants_w, st_try_true, st_try_false, st_max_readers,
-	       st_stress_runs, st_stress_grants, st_stress_try_t, st_stress_try_f, st_stress_maxr, st_read_holds_max, st_read_holds_refused, st_yields, st_stress_spurious, vh_nviol, vh_now() - t0);
+	       st_stress_runs, st_stress_grants, st_stress_try_t, st_stress_try_f, st_stress_maxr, st_read_holds_max, st_read_holds_refused, st_holds_granted, st_holds_refused_at, st_yields, st_stress_spurious, vh_nviol, vh_now() - t0);
 	fflush(stdout);
 	_exit(0);
 }
